@@ -17,11 +17,28 @@ class C02(Prop):
         for k in range(n):
             prof = None if k % 2 == 0 else ("contend_full" if k % 4 == 1 else "contend_empty")
             cases.append(ringgen.gen_case(rng, profile=prof))
-        return [Suite("ring", ringgen.HEADER, cases)]
+        fs = [ringgen.gen_case(rng, kind="fsring", profile=(None if j % 2 == 0 else ("contend_full" if j % 4 == 1 else "contend_empty"))) for j in range(n)]
+        from .. import unigen
+        un = n // 2
+        return [Suite("ring", ringgen.HEADER, cases), Suite("fsring", ringgen.HEADER, fs),
+                Suite("uni_move_atomic", unigen.HEADER, [unigen.gen_case(rng, "move_atomic") for _ in range(un)]),
+                Suite("uni_move_full_sync", unigen.HEADER, [unigen.gen_case(rng, "move_full_sync") for _ in range(un)])]
     def oracle(self, case, recs):
-        return ringgen.oracle_exactly_once(case, recs) + ringgen.oracle_fifo_bounds(case, recs)
+        if "chan" in case.meta:
+            from .. import unigen
+            return unigen.uni_oracle_exactly_once(case, recs)
+        hits = ringgen.oracle_exactly_once(case, recs) + ringgen.oracle_fifo_bounds(case, recs)
+        if case.meta.get("kind") == "fsring":
+            # the full-sync ring has no exception class: its full / empty answers are exact
+            hits = [(None, text) for cls, text in hits]
+        return hits
     def nontrivial(self, case, recs):
+        if "chan" in case.meta:
+            from .. import unigen
+            return unigen.uni_nontrivial(case, recs)
         return ringgen.nontrivial_window(case, recs)
     def parse_replay(self, text):
         lines = [l for l in text.splitlines() if l.strip() and not l.startswith("#")]
-        return Suite("replay", ringgen.HEADER, [ringgen.parse_case_line(l) for l in lines])
+        from .. import unigen
+        cases = [unigen.parse_case_line(l) if l.startswith("uni ") else ringgen.parse_case_line(l) for l in lines]
+        return Suite("replay", unigen.HEADER + "\n" + ringgen.HEADER, cases)
